@@ -408,7 +408,7 @@ def main():
         for name, w, d in fam:
             if w is None:
                 notes.append('%s: %s' % (name, d))
-        add('pure', 'pure_' + T, [(w, '%s<%s>' % (d, CT[T])) for name, w, d in fam if w is not None], 16 if T == 'f64' else 6)
+        add('pure', 'pure_' + T, [(w, '%s<%s>' % (d, CT[T])) for name, w, d in fam if w is not None], 32 if T == 'f64' else 16)
     add('tables', 'tables', family_tables(inv, tb), 8, ['-fno-inline'])
     add('tables', 'parse', family_parse(inv, tb, 3 if thorough else 2), 8, ['-fno-inline'])
     add('tables', 'number', family_number(), 1, ['-fno-inline'], includes=['PhQ/Base.hpp'])
